@@ -5,6 +5,8 @@
 //!                                        lock, injected through the verif_hooks feature), then ordinary calls
 //!   w20_many <seed> <n>                  n distinct zones go through the shared provider (from several threads), then
 //!                                        each is queried again: every answer must be the one a fresh provider gives
+//!   w20_case <seed> <n>                  n zones are used under their canonical names, then each is requested under a
+//!                                        re-cased spelling: the shared provider must answer what a fresh one answers
 //! Outcome `ok same` / `ok differ …`; a deadlock shows as `timeout` (the suite runs under the watchdog).
 use crate::common::*;
 use std::sync::{Arc, Barrier};
@@ -26,6 +28,9 @@ pub fn generate(rng: &mut Rng, thorough: bool) -> Vec<String> {
     }
     for _ in 0..(if thorough { 10 } else { 3 }) {
         v.push(format!("w20_many {} {}", rng.next() % 1_000_000, *rng.pick(&[40u32, 70, 100, 140])));
+    }
+    for _ in 0..(if thorough { 10 } else { 3 }) {
+        v.push(format!("w20_case {} {}", rng.next() % 1_000_000, *rng.pick(&[5u32, 12, 30])));
     }
     for k in 0..(if thorough { 60 } else { 12 }) {
         v.push(format!("w20_fail {} {}", rng.next() % 1_000_000, ["unknown-zone", "out-of-range", "panic-holding-lock"][k % 3]));
@@ -129,6 +134,30 @@ pub fn eval(t: &[&str]) -> Option<String> {
                 let (a, b) = (shared(z, ns_of(k)), alone(z, ns_of(k)));
                 if a != b && bad.is_none() {
                     bad = Some(format!("{z}: {a} | {b}"));
+                }
+            }
+            Some(match bad { None => "ok same".into(), Some(b) => format!("ok differ {b}") })
+        }
+        "w20_case" => {
+            let mut rng = Rng::new(i(t[1]) as u64);
+            let all = super::c03::zone_ids();
+            let n = (i(t[2]) as usize).min(all.len());
+            let names: Vec<String> = (0..n).map(|_| rng.pick(&all).clone()).collect();
+            let via = |z: &str, ns: i128, shared: bool| -> String {
+                let zdt = match ZonedDateTime::try_new(ns, Calendar::default(), TimeZone::IanaIdentifier(z.to_string())) { Ok(z) => z, Err(e) => return format!("err {}", err_kind(&e)) };
+                let r = if shared { zdt.offset() } else { zdt.offset_with_provider(&FsTzdbProvider::default()) };
+                match r { Ok(s) => s, Err(e) => format!("err {}", err_kind(&e)) }
+            };
+            for z in &names {
+                let _ = via(z, 0, true);
+            }
+            let mut bad = None;
+            for (k, z) in names.iter().enumerate() {
+                let other: String = match k % 3 { 0 => z.to_ascii_lowercase(), 1 => z.to_ascii_uppercase(), _ => z.chars().enumerate().map(|(j, c)| if j % 2 == 0 { c.to_ascii_lowercase() } else { c.to_ascii_uppercase() }).collect() };
+                let ns = (k as i128 * 53_000_000 - 700_000_000) * 1_000_000_000;
+                let (a, b) = (via(&other, ns, true), via(&other, ns, false));
+                if a != b && bad.is_none() {
+                    bad = Some(format!("{other}: {a} | {b}"));
                 }
             }
             Some(match bad { None => "ok same".into(), Some(b) => format!("ok differ {b}") })
